@@ -39,5 +39,64 @@ def run_c07(tier, seed):
     return _finish(v, work, counters, distinct, samples, stats,
                    "1-worker endpoint; connection A requests 4-24 MiB with a 2 KiB receive buffer and does not read (0-3 further writes queued behind); 1-3 other connections issue requests before / during / repeatedly during the block; after 0.2-1.1 s A reads everything (byte-exact tagged body). distinct = (size, queued writes, other connections, arrival pattern, stall length)")
 
+def run_c08(tier, seed):
+    v = vlib.Verdict("C08", tier, seed, level="fault_enumeration")
+    work = vlib.scratch_dir("C08")
+    binary = vlib.build_harness("server", "plain")
+    nsh = 8
+    res = vlib.run_resumable(binary, ["--prop", "c08", "--seed", str(seed), "--cases", str(12 if tier == "quick" else 300)], nsh,
+                             timeout=300 if tier == "quick" else 7200, work=work)
+    counters, distinct, samples, stats = vlib.collect_runs(v, res)
+    v.assumptions += ["'exactly once' is decided at quiescence: all clients gone, accepted descriptors released and /proc/self/fd back at the idle baseline within a bounded, load-scaled wait",
+                      "accept4/close are interposed at link time to own the set of accepted descriptors; the HTTP endpoint path observes onRequest/onDisconnection only (Http::Handler::onConnection is private)"]
+    return _finish(v, work, counters, distinct, samples, stats,
+                   "rounds of 1-24 concurrent scripted clients against a raw Tcp::Listener (own Tcp::Handler, spy transport exposing the peer table) or an Http::Endpoint (1 s idle time-outs): connect/close, partial request then close, full exchange, half-close then read to EOF, RST, RST with a 4 MiB response pending, silence until the idle time-out (before/after an exchange), handlers that arm timeoutAfter and answer first, keep-alive sequences. Per-peer callback automaton, accept4/close ownership, descriptor census, peer table, service afterwards. distinct = (server kind, workers, behaviour set)")
+
+def run_c14(tier, seed):
+    v = vlib.Verdict("C14", tier, seed, level="fault_enumeration")
+    work = vlib.scratch_dir("C14")
+    binary = vlib.build_harness("server", "plain")
+    res = vlib.run_resumable(binary, ["--prop", "c14s", "--seed", str(seed), "--cases", str(60 if tier == "quick" else 1500)], 10,
+                             timeout=300 if tier == "quick" else 7200, work=work, tag="s")
+    counters, distinct, samples, stats = vlib.collect_runs(v, res)
+    res2 = vlib.run_resumable(binary, ["--prop", "c14t", "--seed", str(seed), "--cases", str(2 if tier == "quick" else 12)], 8,
+                              timeout=300 if tier == "quick" else 7200, work=work, tag="t")
+    c2, d2, s2, st2 = vlib.collect_runs(v, res2)
+    distinct |= d2
+    counters["evaluations"] = counters.get("evaluations", 0) + c2.get("evaluations", 0)
+    cc = counters.setdefault("counts", {})
+    for k, val in c2.get("counts", {}).items():
+        cc[k] = cc.get(k, 0) + val
+    v.assumptions += ["timing cases use time-outs of 1-3 s, stalls of 0.3-0.6 x T (must pass) and judge 408 only within T + 0.5 s scan period + 1.5 s load-scaled slack; nothing is judged inside the scan band",
+                      "server-side read segmentation is forced by interposing recv (per-descriptor caps), not left to TCP"]
+    return _finish(v, work, counters, distinct, samples + s2, stats,
+                   "size: limits {100,300,512,4096,8192} x total request sizes {limit-1, limit, limit+1, 2*limit, random near} x body kinds (none/Content-Length/chunked) x server read caps (whole, bytewise, random, boundary exactly at the limit) x 1 or 4 workers, exact byte counts; time-outs: (header,body) in {(1,2),(2,1),(1,1),(2,3)} s x 8 stall points (none, after connect, inside request line, inside headers, inside body, slow-but-within, second keep-alive request after an idle gap, body after the header time-out but within the body time-out). distinct = (limit, relation, kind, segmentation, workers) and (setting, stall point, workers)")
+
+def run_c05(tier, seed):
+    v = vlib.Verdict("C05", tier, seed, level="exploration")
+    work = vlib.scratch_dir("C05")
+    binary = vlib.build_harness("server", "plain")
+    res = vlib.run_resumable(binary, ["--prop", "c05", "--seed", str(seed), "--cases", str(120 if tier == "quick" else 6000)], 12,
+                             timeout=300 if tier == "quick" else 7200, work=work)
+    counters, distinct, samples, stats = vlib.collect_runs(v, res)
+    try:
+        from checks import client as clientmod
+        extra = clientmod.c05_client_requests(v, tier, seed, work)
+        if extra:
+            stats["client_requests"] = extra
+    except (ImportError, AttributeError):
+        pass
+    v.assumptions += ["bytes on the peer socket are judged by an independent RFC 7230 message reader (harness/live.h), not by Pistache's parser",
+                      "handler-set Content-Length / Transfer-Encoding are framework-managed and not generated; the response size limit is judged for fixed-length responses only (as the statement says)"]
+    return _finish(v, work, counters, distinct, samples, stats,
+                   "handler recipes: 22 status codes x 0-6 typed headers x 0-4 cookies x fixed bodies (0-3 bytes, every size around 512*2^k +-, random up to 70 KB) or streams of 0-8 chunks (sizes across hex-length changes 15/16/17, 255/256/257, 4095/4096/4097, 65535/65536/65537, empty chunk, integer and literal operator<< values) with/without flush after each chunk; captured bytes checked for grammar, exactly-once headers/cookies, Content-Length = body, decoded chunks = data written, clean next exchange, getResponseSize() = bytes emitted; limit differential: the same recipe with maxResponseSize in {T-1, T, T+1, head-1, head, head+1}. distinct = recipe shape classes")
+
+def c10_live(v, tier, seed, work):
+    binary = vlib.build_harness("server", "plain")
+    res = vlib.run_resumable(binary, ["--prop", "c10l", "--seed", str(seed), "--cases", str(15 if tier == "quick" else 500)], 8,
+                             timeout=300 if tier == "quick" else 7200, work=work, tag="l")
+    c, d, s, st = vlib.collect_runs(v, res)
+    return dict(live_probes=int(c.get("evaluations", 0)), distinct=len(d), **st)
+
 def run(pid, tier, seed, replay=None):
-    return {"C06": run_c06, "C07": run_c07}[pid](tier, seed)
+    return {"C05": run_c05, "C06": run_c06, "C07": run_c07, "C08": run_c08, "C14": run_c14}[pid](tier, seed)
